@@ -33,8 +33,8 @@ import (
 var Check = &ev.Check{
 	ID:    "C18",
 	Level: "model_checking",
-	Rule: "scenarios: (codec) every unordered pair (thorough: also triples over the core ops) of operations from a 14-operation alphabet {Encode, Decode+materialise, Decode+EvaluateValue, EncodeEnveloped, DecodeEnveloped, DecodeRequest+EncodeResponse, " +
-		"ReadRequest+WriteResponse (decoding and field-skipping body), stream primitive walk, generated ToWire->Encode, Decode->FromWire, generated stream Encode / Decode} on distinct values, one per thread; " +
+	Rule: "scenarios: (codec) every unordered pair (thorough: also triples over the core ops) of operations from a 16-operation alphabet {Encode, Decode+materialise, Decode+EvaluateValue, EncodeEnveloped, DecodeEnveloped, DecodeRequest+EncodeResponse, " +
+		"ReadRequest+WriteResponse (decoding and field-skipping body, one-byte empty request), DecodeRequest of the one-byte empty request, stream primitive walk, generated ToWire->Encode, Decode->FromWire, generated stream Encode / Decode} on distinct values, one per thread; " +
 		"(sequential) every ordered pair run back to back on one thread; (frame) K in {2,3} concurrent Sends with distinct payloads on one frame.Client against an echo frame.Server; (fanout) MultiServiceGenerator.Generate over 2..3 generators with disjoint and overlapping files. " +
 		"schedules: all interleavings at scheduling points (every shim mutex/waitgroup/atomic/pool operation and every harness Read/Write/ReadAt) with at most 2 preemptions, and every sync.Pool.Get answer (fresh object or any pooled one; non-default answers count as deviations, total deviation bound 2). " +
 		"A state is a node of the choice tree; a transition is one scheduler or pool decision; every execution runs the real code. Oracle: each operation's result equals its result when run alone; each Send(p) returns echo(p); merged files = union or the conflict error; no deadlock, no panic. " +
@@ -193,6 +193,27 @@ func ops(k int) []op {
 			var buf bytes.Buffer
 			rerr := rw.WriteResponse(wire.Reply, vio.YieldWriter{W: &buf}, enveloper{hs})
 			return hexs(buf.Bytes()) + errs(rerr)
+		}},
+		{"ReadRequest(empty)", func() string {
+			// a one-byte message: the bare empty struct
+			br := &bodyReader{}
+			rw, err := binary.Default.ReadRequest(context.Background(), wire.Call, onlyReader{vio.YieldReader{R: bytes.NewReader([]byte{0})}}, br)
+			if err != nil {
+				return errs(err)
+			}
+			var buf bytes.Buffer
+			rerr := rw.WriteResponse(wire.Reply, vio.YieldWriter{W: &buf}, enveloper{hs})
+			return br.v.Key() + "|" + hexs(buf.Bytes()) + errs(rerr)
+		}},
+		{"DecodeRequest(empty)", func() string {
+			w, resp, err := binary.Default.DecodeRequest(wire.Call, vio.YieldReaderAt{R: bytes.NewReader([]byte{0})})
+			if err != nil {
+				return errs(err)
+			}
+			m, ferr := wirex.FromWire(w)
+			var buf bytes.Buffer
+			rerr := resp.EncodeResponse(wirex.ToWire(hs), wire.Reply, vio.YieldWriter{W: &buf})
+			return m.Key() + errs(ferr) + "|" + hexs(buf.Bytes()) + errs(rerr)
 		}},
 		{"StreamWalk", func() string {
 			sr := binary.Default.Reader(onlyReader{vio.YieldReader{R: bytes.NewReader(enc)}})
@@ -550,7 +571,7 @@ func run(w *ev.W) {
 	a, b, c := ops(1), ops(2), ops(3)
 	var scs []*scenario
 	n := len(a)
-	core := []int{0, 1, 2, 5, 6, 7, 11, 13} // ops used for triples
+	core := []int{0, 1, 2, 5, 6, 7, 8, 13, 15} // ops used for triples and for "two ops, then one concurrently"
 	// every unordered pair of operations on two threads
 	for i := 0; i < n; i++ {
 		for j := i; j < n; j++ {
